@@ -72,6 +72,9 @@ NoWidths == {Neg1}
 OpsSysQ == {"TcFromStorage", "TlFromTc", "TlSave", "TlLoad", "TcSave", "TcLoad", "EmLocate"}
 ImgListsQ == {<<1, 2>>, <<4, 3, 1>>}
 OpsSys == {"EmLocate", "TcFromStorage", "TlFromTc", "TlSave", "TlLoad", "TcSave", "TcLoad", "TcIndex", "TrkIndex"}
+EvListsTcQ == {<<1>>, <<1, 2>>, <<2, 1>>}
+TimeListsTcQ == {<<>>, <<0 - 2, 0>>, <<3>>}
+TimesTcQ == {0 - 1, 4}
 TlListsA == {<<>>, <<1>>, <<1, 2>>, <<2, 1, 2>>}
 MinDursA == {Neg1, 0, 2}
 =============================================================================
